@@ -67,12 +67,35 @@ class CHECK(Check):
             elif k == "random":
                 ys = [[rng.choice([0, 1, 2, 3]), rng.choice([1, 2, 3])] for _ in range(rng.randint(1, 8))]
             yield {"fam": rng.choice(families.FAMILIES), "xs": xs, "ys": ys, "file": rng.random() < 0.5, "kind": k}
+        # the same content read twice gives equal files, and equal files write identical output
+        from .. import reglib
+        from .c04 import gen_line
+        for _ in range(400 if tier == "quick" else 8000):
+            regdefs = reglib.gen_regdefs(rng, same_window=True)
+            lines = [gen_line(rng, regdefs) for _ in range(rng.randint(0, 8))]
+            lines = [l for l in lines if "nan" not in l.lower() and "inf" not in l.lower()]
+            yield {"fam": "register", "kind": "readtwice", "regdefs": regdefs, "xs": [], "ys": None,
+                   "content": "\n".join(lines) + (rng.choice(["\n", ""]) if lines else "")}
         for fam in families.FAMILIES:
             for f in FOREIGN:
                 for as_file in (False, True):
                     yield {"fam": fam, "xs": [[0, 1], [2, 2]], "ys": None, "foreign": f, "file": as_file, "kind": "foreign"}
 
     def impl(self, case):
+        if case.get("kind") == "readtwice":
+            import io
+            from .. import reglib
+            regs = [reglib.mk_register_class(rd, i) for i, rd in enumerate(case["regdefs"])]
+            F = reglib.mk_file_class(regs)
+            try:
+                a, b = F.read(case["content"]), F.read(case["content"])
+                ba, bb = io.StringIO(), io.StringIO()
+                a.write(ba)
+                b.write(bb)
+                return {"ab": bool(a == b), "ba": bool(b == a), "ne": bool(a != b), "same_output": ba.getvalue() == bb.getvalue(),
+                        "distinct_containers": a.data is not b.data}
+            except Exception as e:
+                return {"raised": type(e).__name__ + ": " + str(e)[:80]}
         a = build(case["fam"], case["xs"], case["file"])
         if case["ys"] is None:
             f = case["foreign"]
@@ -93,7 +116,7 @@ class CHECK(Check):
         return {"ab": bool(res[0]), "ba": bool(res[1])}
 
     def compare(self, case, iobs, mobs):
-        if case["ys"] is None:
+        if case["ys"] is None or case.get("kind") == "readtwice":
             return None
         if not isinstance(iobs, dict) or "ab" not in iobs:
             return "implementation raised: %s" % (iobs,)
@@ -104,6 +127,14 @@ class CHECK(Check):
     def oracle(self, case, obs):
         if not isinstance(obs, dict) or "ab" not in obs:
             return "comparison raised: %s" % (obs,)
+        if case.get("kind") == "readtwice":
+            if not (obs["ab"] and obs["ba"]) or obs["ne"]:
+                return "reading the same content twice gives unequal files"
+            if not obs["same_output"]:
+                return "equal files write different output"
+            if not obs["distinct_containers"]:
+                return "two reads of the same content share one container"
+            return None
         if case["ys"] is None:
             if obs["ab"] or obs["ba"] or not obs["ne"]:
                 return "equal to a foreign object (%s)" % case["foreign"]
@@ -123,6 +154,8 @@ class CHECK(Check):
         return None
 
     def nontrivial(self, case, obs):
+        if case.get("kind") == "readtwice":
+            return len(case["content"]) > 0
         if case["ys"] is None:
             return True
         xs, ys = case["xs"], case["ys"]
@@ -131,13 +164,13 @@ class CHECK(Check):
         return sum(1 for x, y in zip(xs, ys) if x != y) <= 1
 
     def classify(self, case):
-        return {"kind_" + case["kind"]: 1, "fam_" + case["fam"]: 1, "as_file" if case["file"] else "as_container": 1}
+        return {"kind_" + case["kind"]: 1, "fam_" + case["fam"]: 1, "as_file" if case.get("file", True) else "as_container": 1}
 
     def signature(self, case, why):
         return why.split(" (")[0]
 
     def shrink(self, case):
-        if case["ys"] is None:
+        if case["ys"] is None or case.get("kind") == "readtwice":
             return
         xs, ys = case["xs"], case["ys"]
         for i in range(max(len(xs), len(ys))):
@@ -148,6 +181,8 @@ class CHECK(Check):
                 yield c
 
     def neighbours(self, case, rng):
+        if case.get("kind") == "readtwice":
+            return
         for fam in families.FAMILIES:
             for fl in (False, True):
                 c = dict(case)
